@@ -202,6 +202,99 @@ fn gen_hull_random(rng: &mut Rng, count: usize, cases: &mut Vec<Case>) {
     }
 }
 
+fn egcd(a: i128, b: i128) -> (i128, i128, i128) {
+    if b == 0 { (a, 1, 0) } else {
+        let (g, x, y) = egcd(b, a % b);
+        (g, y, x - (a / b) * y)
+    }
+}
+
+fn valid(p: (i128, i128)) -> Option<P> {
+    if p.0.abs() <= LAT_MAX as i128 && p.1.abs() <= LON_MAX as i128 { Some((p.0 as i32, p.1 as i32)) } else { None }
+}
+
+/// Point sets around a long base segment o -> o + g*(dy,dx) (tens to hundreds of degrees in both
+/// coordinates, (dx,dy) primitive) plus points whose exact cross product with the base is tiny:
+/// with dx*v - dy*u = 1 (extended Euclid) the point o + (s*u mod dx, matching lat) has cross product g*s.
+/// The products in the orientation test exceed 2^53, so any rounding of them flips turns; both signs are
+/// generated, so some of these points are genuine hull vertices and some lie just inside.
+fn gen_hull_near_collinear_far(rng: &mut Rng, count: usize, cases: &mut Vec<Case>) {
+    let mut made = 0;
+    let mut guard = 0;
+    while made < count && guard < count * 50 {
+        guard += 1;
+        let g: i128 = *rng.pick(&[1i128, 1, 1, 2, 3]);
+        // span of the whole base in micro-degrees: lon 20..340 degrees, lat 20..160 degrees (biased to large)
+        let span_lon = if rng.chance(2, 3) { rng.range(150_000_000, 340_000_000) } else { rng.range(20_000_000, 340_000_000) } as i128;
+        let span_lat = if rng.chance(2, 3) { rng.range(60_000_000, 160_000_000) } else { rng.range(20_000_000, 160_000_000) } as i128;
+        let dx = span_lon / g;
+        let mut dy = span_lat / g;
+        if rng.chance(1, 2) {
+            dy = -dy;
+        }
+        let (gg, x, y) = egcd(dx, dy.abs());
+        if gg != 1 {
+            continue;
+        }
+        // dx*v - dy*u = 1
+        let (u, v) = if dy > 0 { (-y, x) } else { (y, x) };
+        debug_assert_eq!(dx * v - dy * u, 1);
+        // origin such that both end points are valid
+        let (tot_lon, tot_lat) = (g * dx, g * dy);
+        let lon0 = rng.range(-(LON_MAX as i64), (LON_MAX as i128 - tot_lon) as i64) as i128;
+        let lat0 = if tot_lat >= 0 {
+            rng.range(-(LAT_MAX as i64), (LAT_MAX as i128 - tot_lat) as i64) as i128
+        } else {
+            rng.range((-(LAT_MAX as i128) - tot_lat) as i64, LAT_MAX as i64) as i128
+        };
+        let mut pts: Vec<P> = Vec::new();
+        // lattice points on the base line (cross product 0): the end points, interior ones if g > 1
+        for k in 0..=g {
+            if k == 0 || k == g || rng.chance(1, 2) {
+                if let Some(p) = valid((lat0 + k * dy, lon0 + k * dx)) {
+                    pts.push(p);
+                }
+            }
+        }
+        // points with cross product g*s, s in -2..=2, anywhere along the base
+        let ns = rng.range(2, 7);
+        for _ in 0..ns {
+            let sgn = *rng.pick(&[-2i128, -1, -1, 1, 1, 2, 0]);
+            let (mut us, mut vs) = (sgn * u, sgn * v);
+            let m = us.div_euclid(dx);
+            us -= m * dx;
+            vs -= m * dy;
+            let k = rng.range(0, (g - 1) as i64) as i128;
+            if let Some(p) = valid((lat0 + vs + k * dy, lon0 + us + k * dx)) {
+                pts.push(p);
+            }
+        }
+        // sometimes a far point on one side (then the near points of that side lie just inside the polygon),
+        // sometimes a duplicate
+        match rng.below(4) {
+            0 => {
+                let side: i128 = if rng.chance(1, 2) { 1 } else { -1 };
+                // normal direction (-dy, dx) in (lon, lat) = left of the base
+                let t = rng.range(1, 40) as i128;
+                if let Some(p) = valid((lat0 + tot_lat / 2 + side * dx * t / 100, lon0 + tot_lon / 2 - side * dy * t / 100)) {
+                    pts.push(p);
+                }
+            }
+            1 => {
+                let p = *rng.pick(&pts);
+                pts.push(p);
+            }
+            _ => {}
+        }
+        if pts.len() <= 3 {
+            continue;
+        }
+        rng.shuffle(&mut pts);
+        cases.push(hull_case("hull-near-collinear-far", &pts));
+        made += 1;
+    }
+}
+
 const ZVALS: [i32; 16] = [
     0, 1, -1, i32::MIN, i32::MAX, 2, -2, i32::MIN + 1, i32::MAX - 1, 0x4000_0000, -0x4000_0000, 0x3FFF_FFFF, 0x5555_5555, -0x5555_5556, 0x0001_0000, -0x0001_0000,
 ];
@@ -486,6 +579,7 @@ fn generate(rng: &mut Rng, tier: Tier, cases: &mut Vec<Case>) {
     }
     gen_hull_degenerate(&mut rng.fork(), if quick { 150 } else { 3000 }, cases);
     gen_hull_random(&mut rng.fork(), if quick { 3000 } else { 60000 }, cases);
+    gen_hull_near_collinear_far(&mut rng.fork(), if quick { 600 } else { 12000 }, cases);
     gen_zorder(&mut rng.fork(), tier, cases);
     gen_bbox(&mut rng.fork(), if quick { 1500 } else { 30000 }, cases);
     gen_md_clean(&mut rng.fork(), if quick { 500 } else { 10000 }, cases);
